@@ -6,7 +6,16 @@ set -u
 patch=$(readlink -f "$1"); id=$2; tier=${3:-quick}
 wt=$(mktemp -d /tmp/seedrun.XXXXXX)
 git -C /repo worktree add --detach "$wt" HEAD >/dev/null 2>&1 || { echo "worktree failed"; exit 3; }
-if ! git -C "$wt" apply "$patch"; then echo "PATCH DOES NOT APPLY"; git -C /repo worktree remove --force "$wt"; exit 3; fi
+if ! git -C "$wt" apply "$patch" 2>/dev/null; then
+  # seeded changes were written against an earlier /repo commit: fall back to the commit recorded
+  # next to the patch (base_commit in meta.json) or to the last commit before this session's fix
+  base=$(python3 -c "import json,sys,os;print(json.load(open(os.path.join(os.path.dirname(sys.argv[1]),'meta.json'))).get('base_commit',''))" "$patch" 2>/dev/null)
+  base=${base:-c6dbc56}
+  git -C /repo worktree remove --force "$wt" >/dev/null 2>&1
+  git -C /repo worktree add --detach "$wt" "$base" >/dev/null 2>&1 || { echo "worktree failed"; exit 3; }
+  if ! git -C "$wt" apply "$patch"; then echo "PATCH DOES NOT APPLY"; git -C /repo worktree remove --force "$wt"; exit 3; fi
+  echo "(applied on base commit $base)"
+fi
 cd /verif
 VERIF_REPO="$wt" ./check "$id" --tier "$tier" > "$wt.log" 2>&1; rc=$?
 grep -a -E "^(VIOLATION|OK property|INCONCLUSIVE|KNOWN-FINDING)|VERIF-FAIL" "$wt.log" | sort | uniq -c | head -8
